@@ -6,6 +6,7 @@ text that was printed from it and the token list the generator intended; mangled
 token list that a naive recogniser of the documented grammar classifies as inside/outside.
 """
 import datetime
+import gzip
 import itertools
 import os
 import re
@@ -84,6 +85,17 @@ def gen_schema(rng, tier):
                 if rel[0] in ("item", "result"):
                     rel[1].append(["score", "float", False])
             feats.append("floatcol")
+        if rng.random() < 0.14:
+            # an extra NON-key column named like a key column of another relation (finding F58 and its family)
+            kind = rng.choice(["result.i-id", "run.parse-id", "item.run-id", "xx"])
+            if kind == "xx":
+                sch.append(["xx", [["parse-id", "integer", True], ["i-id", "integer", False], ["x-note", "string", False]]])
+            else:
+                rname, cname = kind.split(".")
+                for rel in sch:
+                    if rel[0] == rname:
+                        rel[1].insert(rng.randrange(1, len(rel[1]) + 1), [cname, "integer", False])
+            feats.append("homonym")
         if rng.random() < 0.12:
             rel = rng.choice(sch)
             rng.shuffle(rel[1])
@@ -193,6 +205,66 @@ STR_LITS = ["dog", "o", "^d", "g$", "[Dd]og", "cat barks", "a.b", "a\\.b", ".", 
 ORD_OPS = ["<", "<=", ">", ">="]
 EQ_OPS = ["==", "!="]
 RE_OPS = ["~", "!~"]
+
+
+# what precedes the select text when it goes through tsql.query / tsql.inspect_query (`_parse_query`: lstrip,
+# partition at the first BLANK, lower-case, 'select' | 'retrieve'); every third draw is a plain lower-case one
+QPREFIX = ["select ", "retrieve ", "select ", "retrieve ", "SELECT ", "Retrieve ", "sElEcT ", "  select ", "\tselect ",
+           "\n retrieve ", "\x0c\x1fselect ", "select  ", "RETRIEVE  ", "select\t", "select\n", "selectx ", "insert ", "",
+           "select", " ", "report ", "selec t ", "where "]
+PY_ASCII_SPACE = " \t\n\r\x0b\x0c\x1c\x1d\x1e\x1f"
+
+
+def qprefix_kind(full):
+    """naive reading of the documentation of tsql.query: 'select …' / 'retrieve …' are select queries, every
+    other first word is unsupported; upper-case spellings are not documented (compared with the model only)"""
+    head = full.lstrip(PY_ASCII_SPACE)
+    word = head.split(" ", 1)[0]
+    if word in ("select", "retrieve"):
+        return "select" if " " in head else "bare"
+    if word.lower() in ("select", "retrieve"):
+        return "case"
+    return "other"
+
+
+def canon_cast(v):
+    if v is None:
+        return None
+    if isinstance(v, bool):
+        return {"b": v}
+    if isinstance(v, int):
+        return {"i": str(v)}
+    if isinstance(v, float):
+        return {"f": repr(v)}
+    if isinstance(v, str):
+        return {"s": cps(v)}
+    if isinstance(v, datetime.datetime):
+        return {"d": date_num(v)}
+    return {"?": type(v).__name__}
+
+
+class _RC(tuple):
+    """a record class with the call signature of itsdb.Row: like Row it IS the tuple of its data (the join
+    loop iterates over the selection's records), and it remembers the fields it was given"""
+    def __new__(cls, fields, data, field_index=None):
+        self = tuple.__new__(cls, data)
+        self.names = tuple(f.name for f in fields)
+        return self
+
+
+KEYFLAGS = [":key", ":primary", ":foreign-key", ":key :unique"]
+
+
+def keyflag(rel, col):
+    """spelling of the key flag of a column in the relations file (Field.is_key: ':key', ':primary', ':foreign…')"""
+    return KEYFLAGS[(len(rel) * 7 + len(col) * 3 + sum(map(ord, col))) % len(KEYFLAGS)]
+
+
+def file_form(case, name):
+    """how the relation's file is written (a function of the case): plain, gzip-compressed, or without the final
+    newline -- the answer of a query must not depend on it"""
+    k = (len(case["text"]) * 3 + len(name) * 5 + len(case["data"].get(name, []))) % 7
+    return {0: "gzip", 1: "no final newline"}.get(k, "plain")
 
 
 def all_columns(sch):
@@ -501,7 +573,8 @@ class Printer:
                 if prev[-1] in ")" and re.match(r"[\d(]", w[0]) and False:
                     need = True
                 if need or not tight:
-                    out.append(self.rng.choice([" ", " ", " ", "  ", "\n", " \n "]) if not tight else " ")
+                    out.append(self.rng.choice([" ", " ", " ", " ", "  ", "\n", " \n ", "\t", "\t ", " \t\n", "\r\n"])
+                               if not tight else " ")
                 # a date lexeme directly followed by '(' would swallow a parenthesised time
             out.append(w)
         return "".join(out)
@@ -814,6 +887,14 @@ def lex_comparable(text):
     return all(ord(c) < 128 for c in text) and not any(c in text for c in "\r\x0b\x0c\x1c\x1d\x1e")
 
 
+def case_qprefix(case):
+    """the query type put in front of the text for tsql.query / tsql.inspect_query: the case's own draw, or (corpus
+    cases, token-level cases) a deterministic function of the text"""
+    if case.get("qprefix") is not None:
+        return uncps(case["qprefix"])
+    return QPREFIX[sum(case["text"]) % len(QPREFIX)]
+
+
 class Unanswerable(Exception):
     """the query names something that does not exist / cannot be connected / is ill-typed"""
     def __init__(self, why):
@@ -891,6 +972,8 @@ def oracle_rows(sch, data, q, only_needed=False):
     def keys(r):
         return {f[0] for f in schema[r] if f[2]}
 
+    if only_needed == "columns":
+        return proj + list(cond_cols.values())
     if only_needed:
         return needed
 
@@ -979,7 +1062,8 @@ def oracle_rows(sch, data, q, only_needed=False):
 
 class C11(Check):
     pid = "C11"
-    props_modules = ["Verif.C11.Props", "Verif.C11.ComposeProps"]
+    props_modules = ["Verif.C11.Props", "Verif.C11.ComposeProps", "Verif.C11.QueryProps", "Verif.C11.GrammarProps",
+                     "Verif.C11.TupleProps", "Verif.C11.PlanProps"]
     quick_cases = 1500
     thorough_cases = 20000
     rule = ("databases over item/run/parse/result with optional extra relations (output, fs with two shared keys, "
@@ -1210,9 +1294,10 @@ class C11(Check):
         sch_2k[3][1].insert(2, ["run-id", "integer", True])
         sch_2k.append(["edge", [["result-id", "integer", True], ["parse-id", "integer", True], ["e-lab", "string", False]]])
         d_2k = {"item": [["1", "a", "1", None], ["2", "b", "2", None]], "run": [["1", "r1", None], ["2", "r2", None]],
-                "parse": [["10", "1", "1", "1", None], ["11", "2", "1", "2", None], ["12", "1", "2", "3", None]],
+                "parse": [["10", "1", "1", "1", None], ["11", "2", "1", "2", None], ["12", "1", "2", "3", None],
+                          [None, None, "2", "4", None], [None, "1", "1", "5", None]],
                 "result": [["10", "0", "1", "m"], ["10", "1", "1", "n"], ["11", "0", "2", "o"], ["11", "0", "1", "p"],
-                           ["12", "1", "1", "q"]],
+                           ["12", "1", "1", "q"], [None, "5", None, "both keys empty"], [None, "6", "1", "one key empty"]],
                 "edge": [["0", "10", "e1"], ["1", "10", "e2"], ["0", "11", "e3"], ["10", "0", "swapped"], ["1", "12", "e4"]]}
         for proj, rels, wh in ((["result-id", "parse-id", "mrs"], [], []), (["mrs", "e-lab"], [], []),
                                (["e-lab", "mrs"], ["edge", "result"], []), (["result.result-id", "edge.parse-id", "e-lab"], [], []),
@@ -1224,6 +1309,35 @@ class C11(Check):
                                (["e-lab"], [], [["and", [["leaf", "==", "result.parse-id", {"i": 10}],
                                                           ["leaf", ">", "result.result-id", {"i": 0}]]]])):
             yield self.make_case(rng, sch_2k, d_2k, {"proj": proj, "rels": rels, "wheres": wh}, plain=True)
+        # a relation without any key column: alone it answers; with another relation there is no key to link it
+        # (the join-order loop gives up: TSQLError), whichever comes first
+        sch_nk = base_schema() + [["nk", [["n-note", "string", False], ["n-num", "integer", False]]]]
+        d_nk = dict(fixed, nk=[["a", "1"], ["b", None], ["a", "1"]])
+        for proj, rels, wh in ((["n-note"], [], []), (["*"], ["nk"], []), (["n-note", "n-num"], ["nk"], [["leaf", "==", "n-num", {"i": 1}]]),
+                               (["n-note", "i-input"], [], []), (["i-input", "n-note"], [], []), (["*"], ["nk", "item"], []),
+                               (["i-input"], ["nk"], []), (["i-input"], [], [["leaf", "~", "n-note", {"s": "a"}]])):
+            c = self.make_case(rng, sch_nk, d_nk, {"proj": proj, "rels": rels, "wheres": wh}, plain=True)
+            c["tags"] = ["keyless relation"]
+            yield c
+        # F58 (fixed by e207678) and its family: an extra NON-key column named like a key column of another relation,
+        # requested by the query (projection or condition), in every position of the projection
+        sch_h = [["item", [["i-id", "integer", True], ["i-input", "string", False]]],
+                 ["parse", [["parse-id", "integer", True], ["i-id", "integer", True]]],
+                 ["xx", [["parse-id", "integer", True], ["i-id", "integer", False], ["x-note", "string", False]]]]
+        d_h = {"item": [["1", "dog"], ["2", "cat"], ["3", "owl"]], "parse": [["10", "1"], ["11", "2"], ["12", "2"]],
+               "xx": [["10", "1", "a"], ["11", "7", "b"], ["12", None, "c"], ["11", "2", "d"]]}
+        W = [["leaf", "==", "xx.i-id", {"i": 1}]]
+        G = [["leaf", ">", "xx.i-id", {"i": 0}]]
+        for proj, rels, wh in ((["i-input", "x-note"], [], W), (["x-note", "i-input"], [], W), (["i-input", "xx.i-id"], [], []),
+                               (["xx.i-id", "i-input"], [], []), (["i-input", "x-note"], [], G), (["x-note", "i-input"], [], G),
+                               (["xx.i-id", "parse.i-id"], [], []), (["parse.i-id", "xx.i-id"], [], []),
+                               (["i-input", "x-note"], [], []), (["*"], ["xx", "item"], []), (["*"], ["item", "xx"], []),
+                               (["i-id", "x-note"], ["xx"], []), (["x-note"], ["item"], G), (["item.i-id", "xx.i-id"], [], []),
+                               (["xx.i-id", "item.i-id"], [], []), (["xx.i-id", "item.i-id", "parse.i-id", "x-note"], [], G),
+                               (["x-note", "item.i-id"], [], [["leaf", "==", "item.i-id", {"i": 2}]])):
+            c = self.make_case(rng, sch_h, d_h, {"proj": proj, "rels": rels, "wheres": wh}, plain=True)
+            c["tags"] = ["non-key column named like a key of another relation"]
+            yield c
         # wave E: string / regex operands that begin or end with a blank
         d_b = {"item": [["1", " dog", "1", None], ["2", "dog ", "2", None], ["3", "dog", "3", None], ["4", " ", "4", None],
                         ["5", None, "5", None], ["6", "a dog b", "6", None]], "run": [], "parse": [], "result": []}
@@ -1248,14 +1362,84 @@ class C11(Check):
                 "result": [["1", "0", "m"], ["9", "0", "x"]]}
         for seq in ((["i-id"], []), (["i-id"], ["parse"]), (["i-id"], [])), \
                    ((["parse-id"], []), (["parse-id"], ["result"]), (["parse-id", "mrs"], []), (["parse-id"], [])), \
-                   ((["i-id"], ["item"]), (["i-id"], ["parse"]), (["i-id", "readings"], []), (["i-id"], ["item"])):
+                   ((["i-id"], ["item"]), (["i-id"], ["parse"]), (["i-id", "readings"], []), (["i-id"], ["item"])), \
+                   ((["i-id"], []), (["*"], []), (["i-id"], [], ["leaf", "==", "i-id", {"s": "x"}]), (["nope"], []),
+                    (["i-id", "mrs"], ["run"]), (["i-id"], ["parse"], ["leaf", "<", "nope", {"i": 1}]), (["i-id"], ["parse"]),
+                    (["i-id"], [])):
             for suite in (False, True):
                 steps = []
-                for proj, rels in seq:
-                    sc = self.make_case(rng, sch, sess, {"proj": proj, "rels": rels, "wheres": []}, plain=True)
+                for proj, rels, *wh in seq:
+                    sc = self.make_case(rng, sch, sess, {"proj": proj, "rels": rels, "wheres": list(wh)}, plain=True)
                     steps.append({"q": sc["q"], "text": sc["text"], "toks": sc["toks"], "words": sc["words"]})
                 yield {"kind": "session", "schema": sch, "data": sess, "steps": steps, "column": seq[0][0][0],
                        "suite": suite, "text": steps[0]["text"]}
+        # ---- round 6: classes of input behind shared support code
+        # (a) long queries: the parser reads through a 1024-token look-ahead buffer (util.LookaheadIterator);
+        # token counts (sentinel included) at every offset around 1024 and 2048, flat and/or and nested groups
+        pcols = ["i-id", "i-input", "i-length", "i-date", "item.i-id", "item.i-input", "i-id", "i-input"]
+        for nl, ps in ((255, range(1, 9)), (511, range(1, 7))) + (((767, range(1, 9)), (1023, range(1, 7)))
+                                                                 if tier == "thorough" else ()):
+            for p in ps:
+                leaves = [["leaf", "!=", "i-id", {"i": 100 + i}] for i in range(nl)]
+                c = self.make_case(rng, sch, fixed, {"proj": pcols[:p], "rels": [], "wheres": [["and", leaves]]}, plain=True)
+                c["tags"] = ["long query (flat and)"]
+                yield c
+        for nl, p, kind in ((255, 3, "or"), (256, 2, "or"), (128, 2, "groups"), (127, 6, "groups"), (86, 1, "not"), (85, 4, "not")):
+            if kind == "or":
+                t = ["or", [["leaf", "==", "i-id", {"i": i % 9}] for i in range(nl)]]
+            elif kind == "groups":      # ( a and b ) or ( a and b ) …: 8 tokens per group
+                t = ["or", [["and", [["leaf", ">", "i-id", {"i": i % 5}], ["leaf", "~", "i-input", {"s": "o"}]]]
+                            for i in range(nl)]]
+            else:                       # ( not a ) and …: 6 tokens per member, 12 with the double negation
+                t = ["and", [["not", ["not", ["leaf", "<", "i-length", {"i": 3 + i % 2}]]] for i in range(nl)]]
+            c = self.make_case(rng, sch, fixed, {"proj": pcols[:p], "rels": [], "wheres": [t]}, plain=True)
+            c["tags"] = ["long query (%s)" % kind]
+            yield c
+        # (b) size: relations with more than 64 / 128 rows and as many distinct join keys, one-to-many and dangling
+        d_big = {"item": [[str(i), "w%d" % (i % 7), str(i % 5), None] for i in range(150)],
+                 "run": [["1", "r", None]],
+                 "parse": [[str(1000 + j), "1", str((j * 7) % 160), str(j % 3), None] for j in range(150)],
+                 "result": [[str(1000 + j), "0", "m%d" % j] for j in range(0, 150, 2)] + [["1003", "1", "again"]]}
+        for proj, rels, wh in ((["i-input", "readings"], [], []), (["readings", "mrs"], [], []), (["i-id"], ["item"], []),
+                               (["i-id", "parse-id"], [], [["leaf", "<", "readings", {"i": 2}]]),
+                               (["*"], ["parse", "item"], [["leaf", ">=", "item.i-id", {"i": 140}]])):
+            c = self.make_case(rng, sch, d_big, {"proj": proj, "rels": rels, "wheres": wh}, plain=True)
+            c["tags"] = ["big relations (150 rows)"]
+            yield c
+        # (c) long fields: 4 KiB and 64 KiB lines in the data files, with the escaped characters far inside
+        d_long = {"item": [["1", "ab " * 1400 + "dog", "1", None], ["2", "x" * 65535 + "@y\\z" + "q" * 600 + " dog", "2", None],
+                           ["3", "dog", "3", None]],
+                  "run": [], "parse": [["10", "1", "1", "1", None], ["11", "1", "2", "1", None]], "result": []}
+        for proj, rels, wh in ((["i-id", "i-input"], [], []), (["i-id"], [], [["leaf", "~", "i-input", {"s": "dog$"}]]),
+                               (["i-input", "parse-id"], [], [])):
+            c = self.make_case(rng, sch, d_long, {"proj": proj, "rels": rels, "wheres": wh}, plain=True)
+            c["tags"] = ["long field"]
+            yield c
+        # (d) join keys that collide under Python's hash (-1/-2, 0/2**61-1, 1/2**61) or exceed machine words
+        hk = ["-1", "-2", "0", "2305843009213693951", "1", "2305843009213693952", "9223372036854775808",
+              "18446744073709551617", "4294967296"]
+        d_hash = {"item": [[k, "v%d" % i, str(i), None] for i, k in enumerate(hk)], "run": [["1", "r", None]],
+                  "parse": [[str(i), "1", k, str(i), None] for i, k in enumerate(hk[1:] + hk[:1] + ["-1", "0"])],
+                  "result": []}
+        for proj, rels, wh in ((["i-id", "i-input", "parse-id"], [], []), (["i-input", "readings"], [], []),
+                               (["i-input"], [], [["leaf", "==", "parse.i-id", {"i": -2}]]),
+                               (["parse-id"], [], [["leaf", ">", "item.i-id", {"i": 2305843009213693951}]]),
+                               (["i-input"], ["parse"], [["leaf", "<=", "i-id", {"i": 2305843009213693952}]])):
+            c = self.make_case(rng, sch, d_hash, {"proj": proj, "rels": rels, "wheres": wh}, plain=True)
+            c["tags"] = ["hash-colliding / huge keys"]
+            yield c
+        # (e) query texts that differ only in letter case or in the amount of white space inside a literal,
+        # one after the other in one process (memoised parsing keyed too coarsely)
+        d_cs = {"item": [["1", "dog", "1", None], ["2", "Dog", "2", None], ["3", "DOG", "3", None], ["4", "a b", "4", None],
+                         ["5", "a  b", "5", None], ["6", None, "6", None], ["7", "Stra\u00dfe", "7", None],
+                         ["8", "STRASSE", "8", None], ["9", "caf\u00e9", "9", None], ["10", "cafe\u0301", "10", None],
+                         ["11", "\ufb01n", "11", None], ["12", "fin", "12", None]], "run": [], "parse": [], "result": []}
+        for lit in ("dog", "Dog", "DOG", "dOG", "a b", "a  b", "A B", "Stra\u00dfe", "strasse", "caf\u00e9", "fin"):
+            for op in ("==", "~", "!="):
+                c = self.make_case(rng, sch, d_cs, {"proj": ["i-id", "i-input"], "rels": [],
+                                                    "wheres": [["leaf", op, "i-input", {"s": lit}]]}, plain=True)
+                c["tags"] = ["texts differing in case / inner blanks"]
+                yield c
         for text in ("i-id where i-date = now", "i-id where i-date < :today", "i-id where i-date >= now"):
             yield {"kind": "kwdate", "text": cps(text)}
         for text in ("order where i-id = 1", "i-id where android = 1", "i-id from fromage", "nowhere", "i-id where note = 1",
@@ -1346,8 +1530,10 @@ class C11(Check):
             text = p.text()
             if not date_follow_hazard(p.words) or plain:
                 break
+        # the query type in front of the select text, as tsql.query / tsql.inspect_query receive it
+        qp = QPREFIX[0] if plain and rng.random() < 0.5 else rng.choice(QPREFIX)
         return {"kind": "select", "schema": sch, "data": data, "q": q, "text": cps(text), "toks": p.toks,
-                "words": [cps(w) for w in p.words]}
+                "words": [cps(w) for w in p.words], "qprefix": cps(qp)}
 
     def search_cases(self, rng, tier, n, seeds):
         return self.cases(rng, tier, n)
@@ -1361,22 +1547,29 @@ class C11(Check):
         for name, fields in case["schema"]:
             lines.append(name + ":")
             for f in fields:
-                lines.append("  %s :%s%s" % (f[0], f[1], " :key" if f[2] else ""))
+                lines.append("  %s :%s%s" % (f[0], f[1], " " + keyflag(name, f[0]) if f[2] else ""))
             lines.append("")
         with open(os.path.join(d, "relations"), "w", encoding="utf-8") as fh:
             fh.write("\n".join(lines) + "\n")
         for name, _ in case["schema"]:
-            with open(os.path.join(d, name), "w", encoding="utf-8", newline="\n") as fh:
-                for row in case["data"][name]:
-                    fh.write(tsdb.join(row) + "\n")
+            body = "".join(tsdb.join(row) + "\n" for row in case["data"][name])
+            form = file_form(case, name)
+            if form == "no final newline":
+                body = body[:-1] if body.endswith("\n") else body
+            if form == "gzip":
+                with gzip.open(os.path.join(d, name + ".gz"), "wt", encoding="utf-8", newline="\n") as fh:
+                    fh.write(body)
+            else:
+                with open(os.path.join(d, name), "w", encoding="utf-8", newline="\n") as fh:
+                    fh.write(body)
         return d
 
     @staticmethod
-    def _parse(text):
+    def _parse(text, prefix="select "):
         try:
             with warnings.catch_warnings():
                 warnings.simplefilter("ignore")
-                d = tsql.inspect_query("select " + text)
+                d = tsql.inspect_query(prefix + text)
             return {"ok": {"projection": list(d["projection"]), "relations": list(d["relations"]),
                            "condition": canon_tree_py(d["condition"])}}
         except tsql.TSQLSyntaxError:
@@ -1402,8 +1595,10 @@ class C11(Check):
                 return {"parse": "datetime-now" if near else "other"}
             except tsql.TSQLSyntaxError:
                 return {"parse": {"err": "TSQLSyntaxError"}}
-        if k in ("mangled", "kwprefix", "notprec", "lextext"):
+        if k == "lextext":
             return {"parse": self._parse(text)}
+        if k in ("mangled", "kwprefix", "notprec"):
+            return {"parse": self._parse(text), "qparse": self._parse(text, case_qprefix(case))}
 
         def run(f):
             try:
@@ -1454,9 +1649,43 @@ class C11(Check):
                     return {"err": "StopIteration"}
             res["rows"] = run(lambda: list(tsql.select(text, db)))
             res["via_query"] = run(lambda: list(tsql.query("retrieve " + text, db))) == res["rows"]
+            # the public entry points with the query type in front
+            qp = case_qprefix(case)
+            res["qparse"] = self._parse(text, qp)
+            res["query"] = run(lambda: list(tsql.query(qp + text, db)))
+            # option plumbing and call paths around the same query: an autocasting Database, a record class
+            # through select and through query(**kwargs), Selection.select(*names, cast=True)
+            res["autocast"] = run(lambda: list(tsql.select(text, tsdb.Database(d, autocast=True))))
+            res["api"] = self._api(text, qp, db)
         finally:
             shutil.rmtree(d, ignore_errors=True)
         return res
+
+    @staticmethod
+    def _api(text, qp, db):
+        out = {}
+        try:
+            with warnings.catch_warnings():
+                warnings.simplefilter("ignore")
+                sel = tsql.select(text, db)
+                plain = [tuple(r) for r in sel]
+                a = list(tsql.select(text, db, record_class=_RC))
+                out["rc_is_class"] = all(type(r) is _RC for r in a)
+                out["rc_data"] = [tuple(r) for r in a] == plain
+                out["rc_names"] = sorted({r.names for r in a}) if a else None
+                out["plain_is_tuple"] = all(type(r) is tuple for r in sel)
+                if qprefix_kind(qp + text) == "select":
+                    b = list(tsql.query(qp + text, db, record_class=_RC))
+                    out["rc_query"] = (b == a and all(type(r) is _RC and r.names == x.names for r, x in zip(b, a)))
+                names = list(sel.projection or [])
+                out["cast"] = [[canon_cast(v) for v in r] for r in sel.select(*names, cast=True)]
+                idx = [sel._field_index[n] for n in names]
+                out["cast_types"] = [sel.fields[i].datatype for i in idx]
+                out["cast_names"] = [sel.fields[i].name for i in idx]
+        except (tsql.TSQLSyntaxError, tsql.TSQLError, KeyError, StopIteration) as e:
+            out["err"] = type(e).__name__ if not isinstance(e, (tsql.TSQLSyntaxError, tsql.TSQLError)) else (
+                "TSQLSyntaxError" if isinstance(e, tsql.TSQLSyntaxError) else "TSQLError")
+        return out
 
     # ---- model
     def model_request(self, case):
@@ -1465,6 +1694,9 @@ class C11(Check):
             self._norequest = self.__dict__.get("_norequest", 0) + 1
         if r is not None and lex_comparable(uncps(case["text"])):
             r["text"] = case["text"]
+            if r.get("op") == "query" and case["kind"] in ("select", "mangled", "kwprefix", "notprec"):
+                # the same text behind its query type: tsql.inspect_query / tsql.query in the composed model
+                r["qtext"] = cps(case_qprefix(case)) + case["text"]
         return r
 
     def _model_request(self, case):
@@ -1578,6 +1810,26 @@ class C11(Check):
             cnt("lexer: not compared (non-ASCII or other line separators)")
         if canon_plain(expected["parse"]) != canon_plain(answer.get("parse")):
             return {"what": "parse", "impl": expected["parse"], "model": answer.get("parse")}
+        cq = answer.get("cquery")
+        if cq is not None and "qparse" in expected and count:
+            unm = [k for k in ("parse", "rows") if isinstance(cq.get(k), dict) and cq[k].get("err") == "unmodelled"]
+            cnt("query()/inspect_query() from the full query string: " +
+                ("compared" if not unm else "model answers unmodelled (C08 cast; not compared)"))
+            if not unm:
+                if canon_plain(expected["qparse"]) != canon_plain(cq.get("parse")):
+                    return {"what": "inspect_query(query type + text)", "prefix": case_qprefix(case),
+                            "impl": expected["qparse"], "model": cq.get("parse")}
+                if "query" in expected and "ok" in expected["qparse"]:
+                    er, mr = expected["query"], cq.get("rows") or {}
+                    if "err" in er or "err" in mr:
+                        same = er.get("err") == mr.get("err")
+                    elif mr.get("ordered", True):
+                        same = er["ok"] == mr["ok"]
+                    else:
+                        same = sorted(er["ok"], key=repr) == sorted(mr["ok"], key=repr)
+                    if not same:
+                        return {"what": "query(query type + text, db)", "prefix": case_qprefix(case), "impl": er,
+                                "model": mr}
         if case["kind"] != "select":
             cnt("parse tree compared only (%s)" % case["kind"])
             return None
@@ -1652,6 +1904,8 @@ class C11(Check):
                 fail("repeating the first query on the same database object gives a different answer",
                      repr(([uncps(s["text"]) for s in case["steps"]], steps[0]["rows"], steps[-1]["rows"])))
             return fails
+        if k in ("notprec", "mangled") and "qparse" in res:
+            self._oracle_qtype(case, res, fail)
         if k == "notprec":
             if "ok" not in res["parse"]:
                 fail("a sentence of the documented grammar is rejected", uncps(case["text"]))
@@ -1684,6 +1938,26 @@ class C11(Check):
             return fails
         if res.get("via_query") is not True:
             fail("query('retrieve …') differs from select(…)", uncps(case["text"]))
+        if "qparse" in res:
+            self._oracle_qtype(case, res, fail)
+            if res["autocast"] != res["rows"]:
+                fail("a Database opened with autocast=True answers differently", repr((uncps(case["text"]), res["rows"],
+                                                                                       res["autocast"])))
+            api = res["api"]
+            if "err" in api or "err" in res["rows"]:
+                if api.get("err") != res["rows"].get("err"):
+                    fail("select with a record class / Selection.select raises differently", repr((api, res["rows"])))
+            else:
+                for key, what in (("rc_is_class", "rows are not instances of the requested record class"),
+                                  ("rc_data", "rows built by a record class carry other data than plain rows"),
+                                  ("plain_is_tuple", "rows without a record class are not plain tuples"),
+                                  ("rc_query", "query(..., record_class=C) differs from select(..., record_class=C)")):
+                    if api.get(key, True) is not True:
+                        fail(what, uncps(case["text"]))
+                if q["proj"] != ["*"] and api.get("rc_names") is not None and \
+                        api["rc_names"] != [tuple(c.split(".")[-1] for c in q["proj"])]:
+                    fail("the fields handed to the record class are not the requested columns in the requested order",
+                         repr((uncps(case["text"]), api["rc_names"])))
         # (2) relational meaning -- judged only on schemas inside the property's quantifier (relations
         # linked by key columns in a tree); on other schemas the model comparison is all there is
         if not tree_linked(case["schema"]):
@@ -1694,6 +1968,16 @@ class C11(Check):
         except Unanswerable as u:
             if u.why == "two-links":
                 return fails
+            if u.why == "unconnected":
+                # a relation WITHOUT any key column is not "linked by key columns" to anything: queries that mix it
+                # with other relations are outside the quantifier (observed: named only in `from` it is silently
+                # ignored, otherwise the join-order loop raises TSQLError); compared with the model only
+                keyless = {name for name, fields in case["schema"] if not any(f[2] for f in fields)}
+                try:
+                    if keyless & set(oracle_rows(case["schema"], case["data"], q, only_needed=True)):
+                        return fails
+                except Unanswerable:
+                    pass
             if "ok" in got:
                 if u.why == "mismatch":
                     fail("a literal/column type mismatch is evaluated instead of rejected", uncps(case["text"]))
@@ -1718,6 +2002,22 @@ class C11(Check):
             fail("a result row does not have one value per requested column", repr(got["ok"][:3]))
             return fails
         have = [norm(r) for r in got["ok"]]
+        if "api" in res and "cast" in res["api"]:
+            # a shared key is kept once, under the first joined relation's field: where same-named columns have
+            # different datatypes (schema variation `keytype`) the field's type may be the other relation's
+            alltypes = {}
+            for _, fs in case["schema"]:
+                for f in fs:
+                    alltypes.setdefault(f[0], set()).add(":" + f[1])
+            types = [":" + next(f for f in schema[rel] if f[0] == c)[1] for rel, c in proj]
+            seen = res["api"]["cast_types"]
+            types_ok = len(seen) == len(types) and all(a == b or (len(alltypes[c]) > 1 and a in alltypes[c])
+                                                       for a, b, (_, c) in zip(seen, types, proj))
+            want_cast = [[canon_cast(cast(t[1:], None if v is None else uncps(v))) for t, v in zip(seen, row)]
+                         for row in got["ok"]]
+            if res["api"]["cast"] != want_cast or not types_ok or res["api"]["cast_names"] != [c for _, c in proj]:
+                fail("Selection.select(*requested columns, cast=True) is not the cast of the selected rows",
+                     repr((uncps(case["text"]), res["api"]["cast"][:3], want_cast[:3])))
         if single:
             if have != rows:
                 fail("single relation: result is not the stored rows that satisfy the condition, in stored order",
@@ -1740,8 +2040,25 @@ class C11(Check):
                     fail("a negated regex match does not match every empty field", uncps(case["text"]))
         return fails
 
+    @staticmethod
+    def _oracle_qtype(case, res, fail):
+        full = case_qprefix(case) + uncps(case["text"])
+        kind = qprefix_kind(full)
+        if kind == "select":
+            if canon_plain(res["qparse"]) != canon_plain(res["parse"]):
+                fail("inspect_query('select …' / 'retrieve …') is not the parse of the select text",
+                     repr((full, res["parse"], res["qparse"])))
+            if "query" in res and res["query"] != res["rows"]:
+                fail("query('select …' / 'retrieve …', db) differs from select(…, db)",
+                     repr((full, res["rows"], res["query"])))
+        elif kind == "other":
+            if res["qparse"].get("err") != "TSQLSyntaxError" or \
+                    ("query" in res and res["query"].get("err") != "TSQLSyntaxError"):
+                fail("a query type other than select/retrieve is not rejected with TSQLSyntaxError",
+                     repr((full, res["qparse"], res.get("query"))))
+
     def classify(self, case, failure):
-        return None
+        return None     # no open known finding (F28, F56, F58, F59 are repaired in /repo; their witnesses are regressions)
 
     def extra_evidence(self):
         tie = dict(self.__dict__.get("_tie", {}))
@@ -1769,6 +2086,9 @@ class C11(Check):
         p = res.get("parse")
         if isinstance(p, dict):
             inc("parse:" + ("ok" if "ok" in p else p["err"]))
+        if "qparse" in res:
+            inc("query-type:" + qprefix_kind(case_qprefix(case) + uncps(case["text"])) +
+                (" -> ok" if "ok" in res["qparse"] else " -> " + res["qparse"]["err"]))
         if k == "mangled":
             inc("mangled:" + ("inside" if recognise(case["toks"]) else "outside"))
             return
@@ -1819,6 +2139,28 @@ class C11(Check):
             pass
         if any(v is None for r in case["data"].values() for row in r for v in row):
             inc("data:has-empty-field")
+        nt = len(case["toks"]) + 1
+        if nt >= 1000:
+            inc("query-tokens:%d" % nt)
+        big = max([len(r) for r in case["data"].values()] or [0])
+        if big > 64:
+            inc("data:relation-with-more-than-64-rows")
+        longest = max([len(v) for r in case["data"].values() for row in r for v in row if v is not None] or [0])
+        if longest >= 4096:
+            inc("data:field-of-%d-characters" % longest)
+        for f in case.get("tags", []):
+            inc("tag:" + f)
+        for rel, fields in case["schema"]:
+            inc("file-form:" + file_form(case, rel))
+            for f in fields:
+                if f[2]:
+                    inc("key-flag:" + keyflag(rel, f[0]))
+        if "api" in res and "err" not in res["api"]:
+            inc("api:record class, Selection.select(cast=True), autocast Database compared")
+        t = uncps(case["text"])
+        for ch, nm in (("\t", "tab"), ("\r\n", "CRLF"), ("\n", "newline")):
+            if ch in t:
+                inc("text:has-" + nm)
 
 
 def json_key(x):
